@@ -111,6 +111,10 @@ func matrixByName(name string) align.SubstitutionMatrix {
 	case "seed":
 		s, _ := strconv.ParseInt(p[1], 10, 64)
 		m = seededMatrix(s, int(f(2)))
+	case "scaled":
+		// small integer scores times a power of two: every sum stays exact, only the magnitude changes
+		k := math.Ldexp(1, int(f(1)))
+		m = symMatrix(f(2)*k, f(3)*k, f(4)*k, f(5)*k)
 	case "exact":
 		// scores that float64 adds exactly over these short sequences but float32 cannot hold
 		switch p[1] {
@@ -201,6 +205,13 @@ func matrixFamily(r *core.Run, which string, forLocal bool) []string {
 	for _, k := range []string{"big", "fine"} {
 		add("exact:" + k + ":0")
 		add("exact:" + k + ":-1")
+	}
+	// the same integer matrices at very small and very large magnitudes (the property does not bound the scale)
+	for _, e := range []int{-50, -1000, 900} {
+		add(fmt.Sprintf("scaled:%d:2:-3:0:-1", e))
+		add(fmt.Sprintf("scaled:%d:1:-1:-1:-1", e))
+		add(fmt.Sprintf("scaled:%d:2:-3:0:0", e))
+		add(fmt.Sprintf("scaled:%d:2:-1:-1:0", e))
 	}
 	add("exact:forbid-open:0")
 	add("exact:forbid-open:1")
